@@ -442,6 +442,38 @@ func TestVerifBoundedJCS(t *testing.T) {
 			return
 		}
 	}
+	// ---- number tokens as they are written: whatever the spelling (long integers beyond 2^53 or 2^63,
+	// signed zero, fractions, exponents), the output is the ES6 text of the double the token denotes
+	tokens := []string{"0", "-0", "0.0", "-0.0", "-0e0", "1", "-1", "10", "1.0", "1.50", "100e-2", "1E3", "1e+3", "1e-3",
+		"9007199254740991", "9007199254740992", "9007199254740993", "-9007199254740993", "9007199254740995", "18014398509481985",
+		"1700000000123456789", "9223372036854775807", "-9223372036854775808", "9223372036854775808", "18446744073709551615",
+		"18446744073709551616", "123456789012345678901234567890", "100000000000000000000", "1000000000000000000000", "999999999999999999999",
+		"0.000001", "0.0000001", "1e-7", "123456789012345.6789", "4.9e-324", "1.7976931348623157e308", "2.5e-9", "1e21", "1e20"}
+	for i := 0; i < nNum/20; i++ {
+		n := 1 + r.Intn(24)
+		var sb strings.Builder
+		if r.Intn(3) == 0 {
+			sb.WriteByte('-')
+		}
+		sb.WriteByte(byte('1' + r.Intn(9)))
+		for k := 1; k < n; k++ {
+			sb.WriteByte(byte('0' + r.Intn(10)))
+		}
+		tokens = append(tokens, sb.String())
+	}
+	for _, tok := range tokens {
+		x, perr := strconv.ParseFloat(tok, 64)
+		if perr != nil {
+			continue
+		}
+		want, werr := NumberToJSON(x)
+		got, err := Transform([]byte("[" + tok + "]"))
+		cases++
+		if werr != nil || err != nil || string(got) != "["+want+"]" {
+			jcFail("number.token", "number token %s canonicalizes to %q (err %v), want [%s]", tok, got, err, want)
+			return
+		}
+	}
 	// ---- random values in several spellings
 	for i := 0; i < nVal; i++ {
 		var v interface{}
